@@ -146,17 +146,17 @@ def grids(ctx, rng):
         [10 ** (e / 4.0) for e in range(-16, 27)]
     kelv = [0, 1, 1500, 2500, 2700, 2700.4, 2700.5, 2700.6, 9000, 65535,
             65535.4, 65536, 70000, -5, 1e300] + list(range(0, 70001, 250))
-    n = len(hues) if thorough else 2400
+    n = len(hues) * 6 if thorough else len(hues)
     tuples = []
     for i in range(n):
-        j = i if thorough else rng.randrange(len(hues))
+        j = i
         tuples.append(('logical', hues[j % len(hues)],
                        pcts[(j * 7 + i) % len(pcts)],
                        pcts[(j * 13 + 5 * i + 1) % len(pcts)],
                        kelv[(j + i) % len(kelv)], durs[(j + 3 * i) % len(durs)]))
     raws = [0, 1, 2, 32767, 32768, 65534, 65535, 65536, 70000, -1, 0.4, 0.5,
             0.6, 65534.5, 65535.4, 1e12, -1e12, 1e300]
-    n = 12000 if thorough else 1200
+    n = 120000 if thorough else 4000
     rdur = [0, 1, 999, 1000, 1500, 2 ** 31, 2 ** 32 - 2, 2 ** 32 - 1, 2 ** 32,
             2 ** 40, 0.4, 0.6, -3, 1e300]
     for i in range(n):
@@ -169,9 +169,11 @@ def grids(ctx, rng):
     rgbgrid = [(r, g, b) for r in range(0, 101, step) for g in range(0, 101, step)
                for b in range(0, 101, step)]
     if not thorough:
-        rgbgrid = rng.sample(rgbgrid, 1500)
+        rgbgrid = rng.sample(rgbgrid, 4000)
+    else:
+        rgbgrid = rgbgrid * 4
     for i, (r, g, b) in enumerate(rgbgrid):
-        if thorough and rng.random() < 0.3:
+        if thorough and i >= 9261:
             r, g, b = [min(100.0, max(0.0, x + rng.uniform(-2.5, 2.5)))
                        for x in (r, g, b)]
         tuples.append(('rgb', r, g, b, kelv[i % len(kelv)],
@@ -199,7 +201,10 @@ def part_grid(ctx):
 def part_roundtrip(ctx):
     devs = simnet.SimLan.devices
     a = devs[0]
-    job = ScriptJob.from_string('get "A" set "B"')
+    # read back in logical units, then re-transmitted through three command
+    # kinds (light, zone, matrix cell)
+    job = ScriptJob.from_string(
+        'get "A" set "B" set "Z" zone 0 set "M" row 0 column 0')
     assert job.program is not None
     n = 0
     for i in range(ctx.shard, 65536, ctx.nshards):
@@ -208,22 +213,30 @@ def part_roundtrip(ctx):
         env.reset_monitors()
         job.execute()
         n += 1
-        sets = [e for e in simnet.LOG if e[0] == 'dev' and e[1] == 'B'
-                and e[2] == 'set_color']
+        sent = {}
+        for e in simnet.LOG:
+            if e[0] != 'dev' or e[4] != 'ok':
+                continue
+            if e[1] == 'B' and e[2] == 'set_color':
+                sent['light'] = e[3][0]
+            elif e[1] == 'Z' and e[2] == 'set_zone_color':
+                sent['zone'] = e[3][2]
+            elif e[1] == 'M' and e[2] == 'SetTileState64':
+                sent['cell'] = e[3][0]['colors'][0]
         replay = {'part': 'roundtrip', 'raw': [i, i, i, k]}
-        if env.MACHINE_STOPS or len(sets) != 1:
+        if env.MACHINE_STOPS or len(sent) != 3:
             ctx.violation('roundtrip:abort', 'get/set of raw {} -> {} {}'.format(
-                a.color, env.MACHINE_STOPS[:1], sets), replay)
+                a.color, env.MACHINE_STOPS[:1], sent), replay)
             continue
         for rv in simnet.RANGE_VIOLATIONS:
             ctx.violation('range:' + rv[1], repr(rv), replay)
-        got = sets[0][3][0]
-        ctx.count('values_checked', 4)
-        ok = (got[1:] == [i, i, k] and oracle.hue_dist(got[0], i) == 0)
-        if not ok:
-            ctx.violation('roundtrip:logical',
-                          'raw {} read in logical units is sent back as {}'
-                          .format(a.color, got), replay)
+        for kind, got in sent.items():
+            ctx.count('values_checked', 4)
+            ok = (got[1:] == [i, i, k] and oracle.hue_dist(got[0], i) == 0)
+            if not ok:
+                ctx.violation('roundtrip:logical:' + kind,
+                              'raw {} read in logical units is sent back as {} '
+                              '({})'.format(a.color, got, kind), replay)
     ctx.cases_enumerated(n)
     ctx.count('roundtrip_logical', n)
     # raw -> rgb -> raw
